@@ -2,6 +2,7 @@
 //! Every subcommand either executes specification-generated behaviours on the real code
 //! or records executions of the real code as ndjson traces for TLC to validate.
 mod fsm;
+mod layout;
 mod util;
 
 fn main() {
@@ -13,6 +14,7 @@ fn main() {
     let rest = &args[2..];
     let code = match args[1].as_str() {
         "freespace" => fsm::main(rest),
+        "layout-selftest" => layout::selftest(rest.first().map(|s| s.as_str()).unwrap_or("/dev/shm/fxv-layout")),
         "version" => {
             println!("fxv record_overhead={}", feoxdb::FeoxStore::verif_record_overhead());
             0
